@@ -21,7 +21,11 @@ def budget(tier):
 
 
 def names(rng, n):
-    kind = rng.choice(["int", "int", "str", "str_digit", "mixed_intlike", "mixed_str", "leading_zero", "hash_equal"])
+    kind = rng.choice(["int", "int", "str", "str_digit", "mixed_intlike", "mixed_str", "leading_zero", "hash_equal", "unicode_digit"])
+    if kind == "unicode_digit":
+        # names made of characters str.isdigit() accepts but int() refuses, alone or next to ASCII digits
+        pool = ["²", "³", "1²", "①", "2", "10", "²³", "3①", "7"]
+        return kind, rng.sample(pool, n)
     if kind == "hash_equal":
         # different ints with the same Python hash (-1 / -2, k / k + 2^61 - 1)
         m61 = 2 ** 61 - 1
@@ -84,7 +88,7 @@ def _conv(ds, values):
     types = {e.type for e in ds.universe}
     out = []
     for v in values:
-        if types == {int} and (isinstance(v, int) or str(v).isdigit()):
+        if types == {int} and (isinstance(v, int) or str(v).isdecimal()):
             out.append(int(v))
         else:
             out.append(str(v) if types == {str} else v)
@@ -172,7 +176,7 @@ def ops(case, out):
                 both.append(dscommon.enc_name(v))
                 if isinstance(v, int):
                     both.append(dscommon.enc_name(str(v)))
-                elif str(v).isdigit():
+                elif str(v).isdecimal():
                     both.append(dscommon.enc_name(int(v)))
             mops.append([op[0], both])
         else:
@@ -196,7 +200,7 @@ def ops(case, out):
                 keep.append(dscommon.enc_name(v))
                 if isinstance(v, int):
                     keep.append(dscommon.enc_name(str(v)))
-                elif str(v).isdigit():
+                elif str(v).isdecimal():
                     keep.append(dscommon.enc_name(int(v)))
             res.append(("c16.proj", [[v[0] for v in snap[0]], keep, [v[0] for v in st[1][0]]]))
     # invariant on every snapshot the implementation produced
@@ -223,6 +227,10 @@ def judge(case, out, answers):
     opnames = {0: "remove_elements", 1: "remove_rate", 2: "remove_empty", 3: "unified", 4: "sub_problem", 5: "sub_problem_from_ids"}
     if len(msteps) != len(isteps):
         diff.append("constructor outcome: model %s impl %s" % (msteps[0][:1], isteps[0][:1]))
+        if msteps[0][0] == 0 and isteps[0][0] != 0:
+            # disjoint buckets, at least one element: a dataset the API must build (and then report consistently)
+            holds = False
+            diff.append("invariant: the constructor refuses a well-formed dataset (%s)" % (isteps[0][:1],))
     else:
         cur_model = None
         for k, (ms, ist) in enumerate(zip(msteps, isteps)):
